@@ -26,6 +26,7 @@ Bind(r) ==
     /\ old' = { r.st.inflight[i].alg : i \in { j \in DOMAIN r.st.inflight : r.st.inflight[j].stale /\ ~r.st.inflight[j].ancient } }
     /\ anc' = { r.st.inflight[i].alg : i \in { j \in DOMAIN r.st.inflight : r.st.inflight[j].ancient } }
     /\ arch' = r.st.archive
+    /\ park' = ToSet(r.st.park) /\ free' = r.st.free
     /\ st' = r.st.st /\ tr' = r.st.tr /\ prior' = r.st.prior /\ bg' = ToSet(r.st.bg) /\ prio' = r.st.prio
     /\ wait' = [k \in K |-> r.st.wait[k]] /\ slot' = [k \in K |-> r.st.slot[k]]
     /\ sub' = r.st.sub
@@ -44,6 +45,8 @@ StepClauses(r) ==
              TruthAllowed([p |-> r.obs.fires[i].prio, executing |-> r.obs.fires[i].executing, pending |-> r.obs.fires[i].pending]))
     \cup FailClause("SYS.ExactlyOnce", nfired' <= 1)
     \cup FailClause("SYS.NoDispatchWhileInactive", (Len(r.obs.written) > 0) => (IsActive /\ \A i \in DOMAIN r.obs.written : r.obs.written[i].active))
+    \cup FailClause("SYS.ReleasedFlyOrParked", SYS_ReleasedFlyOrParked' /\ SYS_ParkedNotFlying')
+    \cup FailClause("SYS.NoArchiveOverParked", (st = "running" /\ st' = "archiving") => (park = {} /\ fly = {}))
     \cup FailClause("SYS.ViewsTruthful", SYS_ViewsTruthful')
     \cup FailClause("SYS.IdleMeansIdle", SYS_IdleMeansIdle')
     \cup FailClause("SYS.Rest", SYS_Rest')
@@ -51,7 +54,8 @@ StepClauses(r) ==
 
 ModelStep(r) ==
     CASE r.ev = "Run" -> Run(r.args.x)
-      [] r.ev = "Tick" -> Tick \/ UNCHANGED <<todo, doing, que, fly, st>>
+      [] r.ev = "Tick" -> Tick(r.args.sc) \/ UNCHANGED <<todo, doing, que, fly, st, park>>
+      [] r.ev = "WorkerArrive" -> WorkerArrive
       [] r.ev = "Reply" -> Reply(r.args.x, r.args.ok, r.args.new)
       [] r.ev = "OldReply" -> OldReply(r.args.x)
                               \* (two abandoned copies of one unit from different loads: the model keeps sets)
